@@ -11,6 +11,7 @@ From Coq Require Import List NArith ZArith Bool String.
 Open Scope string_scope.
 Import ListNotations.
 Require Import V.lib.Bytes.
+Require V.gen.NoticeTypes.
 Open Scope Z_scope.
 
 (* ------------------------------------------------------------------------------------------ data *)
@@ -49,7 +50,7 @@ Record addargs := mkA {
 }.
 
 (* state.NoticeFilter *)
-Record filter := mkF {
+Record nfilter := mkF {
   f_user : option N;
   f_types : list bytes;
   f_keys : list bytes;
@@ -58,20 +59,25 @@ Record filter := mkF {
 
 (* ------------------------------------------------------------------------------------------ AddNotice *)
 
-(* NoticeType.Valid: the six constants *)
-Definition valid_types : list bytes :=
-  [bs "change-update"; bs "warning"; bs "refresh-inhibit"; bs "snap-run-inhibit";
-   bs "interfaces-requests-prompt"; bs "interfaces-requests-rule-update"].
+(* NoticeType.Valid: the constants of its switch, regenerated from overlord/state/notices.go on every run *)
+Definition valid_types : list bytes := NoticeTypes.valid_types.
+
+(* abbreviations used by the drivers' case files (string literals are slow to parse): the i-th entry of a fixed table
+   of type strings, and the i-th key of the generators' key alphabet *)
+Definition ty (i : nat) : bytes :=
+  nth i [bs "change-update"; bs "warning"; bs "refresh-inhibit"; bs "snap-run-inhibit";
+         bs "interfaces-requests-prompt"; bs "interfaces-requests-rule-update"] [].
+Definition ky (i : nat) : bytes := nth i [bs "a"; bs "b"; bs "-"; bs "c d"] [].
 
 Definition mem_bytes (x : bytes) (l : list bytes) : bool := existsb (beq x) l.   (* sliceContains *)
 
 Definition type_valid (t : bytes) : bool := mem_bytes t valid_types.
 
-(* ValidateNotice (maxNoticeKeyLength = 256) *)
+(* ValidateNotice (maxNoticeKeyLength from the generated file) *)
 Definition validate (a : addargs) : bool :=
   type_valid (a_type a) &&
   negb (is_nil_b (a_key a)) &&
-  Nat.leb (List.length (a_key a)) 256 &&
+  Nat.leb (List.length (a_key a)) NoticeTypes.max_key_length &&
   (if beq (a_type a) (bs "refresh-inhibit") then beq (a_key a) (bs "-") else true).
 
 (* the lastNoticeTimestamp bump: `if !now.After(last) { now = last.Add(time.Nanosecond) }` *)
@@ -122,7 +128,7 @@ Definition add_notice (st : state) (a : addargs) : option (state * bool * N) :=
 (* ------------------------------------------------------------------------------------------ Notices *)
 
 (* the user / type / key part of NoticeFilter.matches *)
-Definition static_match (f : filter) (n : notice) : bool :=
+Definition static_match (f : nfilter) (n : notice) : bool :=
   (match f_user f with
    | None => true
    | Some u => match n_user n with None => true | Some v => N.eqb u v end
@@ -134,7 +140,7 @@ Definition after_ok (c : option Z) (n : notice) : bool :=
   match c with None => true | Some a => n_lr n >? a end.
 
 (* NoticeFilter.matches *)
-Definition matches (f : filter) (n : notice) : bool := static_match f n && after_ok (f_after f) n.
+Definition matches (f : nfilter) (n : notice) : bool := static_match f n && after_ok (f_after f) n.
 
 (* sort.Slice by lastRepeated.Before: insertion sort (the order of equal timestamps is unspecified in Go; it is
    canonicalised by id before comparing with the implementation, and excluded by the theorems' hypotheses) *)
@@ -147,22 +153,22 @@ Fixpoint ins (n : notice) (l : list notice) : list notice :=
 Definition sort_lr (l : list notice) : list notice := fold_right ins [] l.
 
 (* State.Notices *)
-Definition notices (st : state) (f : filter) : list notice :=
+Definition notices (st : state) (f : nfilter) : list notice :=
   sort_lr (List.filter (matches f) (s_notices st)).
 
 (* ------------------------------------------------------------------------------------------ polling client *)
 
-Definition with_after (f : filter) (c : option Z) : filter := mkF (f_user f) (f_types f) (f_keys f) c.
+Definition with_after (f : nfilter) (c : option Z) : nfilter := mkF (f_user f) (f_types f) (f_keys f) c.
 
 (* the cursor protocol described in AddNotice's comment: ask for the notices after the last one received *)
 Definition max_lr (c : option Z) (l : list notice) : option Z :=
   fold_left (fun acc n => match acc with None => Some (n_lr n) | Some a => Some (Z.max a (n_lr n)) end) l c.
 
-Definition poll (st : state) (f : filter) (c : option Z) : list notice * option Z :=
+Definition poll (st : state) (f : nfilter) (c : option Z) : list notice * option Z :=
   let r := notices st (with_after f c) in (r, max_lr c r).
 
 (* State.WaitNotices returns without blocking exactly when this is true (state predicate form of the wake-up) *)
-Definition wait_enabled (st : state) (f : filter) : bool := negb (is_nil_b (notices st f)).
+Definition wait_enabled (st : state) (f : nfilter) : bool := negb (is_nil_b (notices st f)).
 
 (* ------------------------------------------------------------------------------------------ histories *)
 
@@ -189,9 +195,9 @@ Fixpoint set_nth {A} (i : nat) (x : A) (l : list A) : list A :=
   | y :: r, S j => y :: set_nth j x r
   end.
 
-Definition no_filter : filter := mkF None [] [] None.
+Definition no_filter : nfilter := mkF None [] [] None.
 
-Fixpoint run (fs : list filter) (st : state) (cur : list (option Z)) (ops : list op) : list obs :=
+Fixpoint run (fs : list nfilter) (st : state) (cur : list (option Z)) (ops : list op) : list obs :=
   match ops with
   | [] => []
   | OAdd a :: rest =>
@@ -245,9 +251,9 @@ Definition obs_eqb (a b : obs) : bool :=
 (* a history driven through the real State: client filters (f_after = the client's initial cursor), operations,
    and what was observed after each operation *)
 Inductive case :=
-| Case (fs : list filter) (ops : list op) (observed : list obs).
+| Case (fs : list nfilter) (ops : list op) (observed : list obs).
 
-Definition initial_cursors (fs : list filter) : list (option Z) := map f_after fs.
+Definition initial_cursors (fs : list nfilter) : list (option Z) := map f_after fs.
 
 Definition mismatch (c : case) : bool :=
   match c with
@@ -278,7 +284,7 @@ Fixpoint replace_id (o : onotice) (l : list onotice) : list onotice :=
   | m :: r => if N.eqb (o_id m) (o_id o) then o :: r else m :: replace_id o r
   end.
 
-Definition ostatic_match (f : filter) (o : onotice) : bool :=
+Definition ostatic_match (f : nfilter) (o : onotice) : bool :=
   (match f_user f with
    | None => true
    | Some u => match o_user o with None => true | Some v => N.eqb u v end
@@ -321,7 +327,7 @@ Definition mon_add (m : mstate) (a : addargs) (r : option onotice) : option msta
       else None
   end.
 
-Definition mon_poll (m : mstate) (fs : list filter) (i : nat) (l : list onotice) : option mstate :=
+Definition mon_poll (m : mstate) (fs : list nfilter) (i : nat) (l : list onotice) : option mstate :=
   let f := nth i fs no_filter in
   let c := nth i (m_clients m) (mkMC false []) in
   (* expected set: matching notices that had a new-or-repeat occurrence since this client's previous poll
@@ -342,7 +348,7 @@ Definition mon_poll (m : mstate) (fs : list filter) (i : nat) (l : list onotice)
     Some (mkM (m_seen m) (m_maxts m) (set_nth i (mkMC true []) (m_clients m)))
   else None.
 
-Fixpoint mon_run (fs : list filter) (m : mstate) (ops : list op) (observed : list obs) : bool :=
+Fixpoint mon_run (fs : list nfilter) (m : mstate) (ops : list op) (observed : list obs) : bool :=
   match ops, observed with
   | [], [] => true
   | OAdd a :: ops', BAdd r :: obs' =>
@@ -378,7 +384,7 @@ Inductive api_result :=
 | ApiForbidden
 | ApiBadRequest
 | ApiEmpty                       (* all requested types invalid: empty list, status 200 *)
-| ApiFilter (f : filter).
+| ApiFilter (f : nfilter).
 
 (* strings.TrimSpace for ASCII white space *)
 Definition is_space (c : N) : bool := ((c =? 32) || ((9 <=? c) && (c <=? 13)))%N.
@@ -518,3 +524,62 @@ Definition amonitor_fail (c : acase) : bool :=
                                       N.eqb i id && match u with None => true | Some v => N.eqb v uid end end) own) ids)
       end
   end.
+
+(* ------------------------------------------------------------------------------------------ one client, for the theorems
+   A history as seen by one polling client with a fixed filter: additions (by anybody) interleaved with its polls.
+   hrun returns, for every poll, the list the client received together with the ghost list `pend`: the keys
+   (user, type, key) of the additions that were new-or-repeated (newOrRepeated = true) since its previous poll. *)
+
+Inductive event :=
+| EAdd (a : addargs)
+| EPoll.
+
+Definition nkey := (option N * bytes * bytes)%type.
+Definition key_of (n : notice) : nkey := (n_user n, n_type n, n_key n).
+Definition akey (a : addargs) : nkey := (a_user a, a_type a, a_key a).
+
+(* static_match on a key *)
+Definition key_static_match (f : nfilter) (k : nkey) : bool :=
+  match k with
+  | (u, t, s) =>
+    (match f_user f with
+     | None => true
+     | Some x => match u with None => true | Some v => N.eqb x v end
+     end) &&
+    (is_nil_b (f_types f) || mem_bytes t (f_types f)) &&
+    (is_nil_b (f_keys f) || mem_bytes s (f_keys f))
+  end.
+
+Fixpoint hrun (f : nfilter) (st : state) (c : option Z) (pend : list nkey) (evs : list event)
+  : list (list notice * list nkey) :=
+  match evs with
+  | [] => []
+  | EAdd a :: r =>
+      match add_notice st a with
+      | None => hrun f st c pend r
+      | Some (st', flag, _) => hrun f st' c (if flag then akey a :: pend else pend) r
+      end
+  | EPoll :: r =>
+      let '(out, c') := poll st f c in (out, pend) :: hrun f st c' [] r
+  end.
+
+Definition ev_server_clock (e : event) : bool :=
+  match e with EAdd a => match a_time a with None => true | Some _ => false end | EPoll => true end.
+
+(* the occurrence times handed out to the new-or-repeated additions of a history, in order *)
+Fixpoint flag_stamps (st : state) (l : list addargs) : list Z :=
+  match l with
+  | [] => []
+  | a :: r =>
+      match add_notice st a with
+      | None => flag_stamps st r
+      | Some (st', flag, _) =>
+          match find (same_key (a_user a) (a_type a) (a_key a)) (s_notices st') with
+          | Some n => if flag then n_lr n :: flag_stamps st' r else flag_stamps st' r
+          | None => flag_stamps st' r
+          end
+      end
+  end.
+
+(* the state after a list of additions *)
+Definition reach (l : list addargs) : state := add_all empty_state l.
